@@ -235,6 +235,30 @@ def main():
                     return 'a listing went on after its end'
     case('Sessions_Val', sobs, m_ses2, 'listing-has-extra-item', sessions.VAL_CONSTS)
 
+    # ---- Readers_Val
+    from . import readers
+    robs = []
+    for i in range(12):
+        o, _, _b, _g = readers.run_session(rnd, [2, 3], force_logs=True)
+        o['id'] = 'rr%d' % i
+        robs.append(o)
+
+    def m_rd(b):
+        for o in b:
+            for a in o['acts']:
+                if a['op'] == 'adv' and not a['found'] and a.get('tabs'):
+                    a['tabs'][0][0].append([99, 98])
+                    return 'an entry of another parse in the first reader object\'s table'
+    case('Readers_Val', robs, m_rd, 'tables-of-some-reader-object', readers.VAL_CONSTS)
+
+    def m_rd2(b):
+        for o in b:
+            for a in o['acts']:
+                if a['op'] == 'adv' and a['found'] and a['item'].get('k') == 'log':
+                    a['item']['msg'] += '?'
+                    return 'a log message resolved to another string'
+    case('Readers_Val', robs, m_rd2, 'yield-content-or-order', readers.VAL_CONSTS)
+
     shutil.rmtree(work, ignore_errors=True)
     for m, what, got in done:
         print('selftest %-16s corruption: %-55s -> rejected %s' % (m, what, got))
